@@ -167,9 +167,35 @@ def batch(arg):
                 if kind == "assign" and fst[1][0] in ("var", "arr"):
                     tgt = fst[1][1].lower()
                     reads_self = [False]
-                    flite.walk_expr(fst[2], lambda e: reads_self.__setitem__(
-                        0, reads_self[0] or (e[0] in ("var", "arr") and
-                                             e[1].lower() == tgt)))
+
+                    def scan(e):
+                        if e[0] == "icall" and e[1].lower() in (
+                                "size", "lbound", "ubound"):
+                            return          # inquiry: not a read
+                        if e[0] in ("var", "arr") and e[1].lower() == tgt:
+                            reads_self[0] = True
+                        if e[0] == "arr":
+                            for sb in e[2]:
+                                if sb[0] == "rng":
+                                    for x in sb[1:]:
+                                        if x is not None:
+                                            scan(x)
+                                else:
+                                    scan(sb)
+                        elif e[0] in ("bin", "cmp", "log"):
+                            scan(e[2])
+                            scan(e[3])
+                        elif e[0] in ("neg", "not"):
+                            scan(e[1])
+                        elif e[0] in ("icall",):
+                            for a_ in e[2]:
+                                scan(a_)
+                            for a_ in (e[3] or {}).values():
+                                scan(a_)
+                        elif e[0] == "fcall":
+                            for a_ in e[2]:
+                                scan(a_)
+                    scan(fst[2])
                     if reads_self[0] and tgt in rep:
                         part.count("self_reading_assignments")
                         order = rep[tgt]["order"]
